@@ -10,5 +10,14 @@ pub mod ring;
 pub mod c16;
 pub mod blk;
 pub mod c08;
+pub mod c04;
+pub mod c13;
+pub mod c14;
+pub mod c06;
+pub mod c10;
+pub mod c12;
+pub mod c09;
+pub mod c19;
+pub mod c11;
 
 include!("gen.rs");
